@@ -218,8 +218,8 @@ func (p *Program) newExec(ob *Obligation, prefix []int) *Exec {
 		freshSeq: map[string]int{}, groupIv: map[string]*smt.Term{}, modKinds: map[int]*ModInfo{},
 		atoms: map[string]bool{}, assertsSeen: map[string]int{}, reached: map[string]bool{},
 		funcs: map[string]bool{}, stubs: map[string]bool{}, native: map[string]interface{}{},
-		blobs: map[*ArrObj]BigVal{}, digests: map[*ArrObj]*smt.Term{},
-		birth: map[string]int{}, maxBirthMemo: map[int]int{}}
+		blobs: map[*ArrObj]BigVal{}, digests: map[*ArrObj]*smt.Term{}, signedMsgs: map[*ArrObj]*SignedMsg{}, initDone: map[*ssa.Package]bool{},
+		birth: map[string]int{}, maxBirthMemo: map[int]int{}, oracleSeen: map[int]bool{}}
 }
 
 func (p *Program) runPath(ob *Obligation, fn *ssa.Function, prefix []int) (res *PathResult) {
@@ -249,16 +249,7 @@ func (p *Program) runPath(ob *Obligation, fn *ssa.Function, prefix []int) (res *
 		res.Steps = ex.steps
 	}()
 	// package initialisers of the target packages, in dependency order
-	ex.inInit = true
-	for _, sp := range p.initOrder(fn.Pkg) {
-		if init := sp.Func("init"); init != nil {
-			ex.interpretInit(init)
-		}
-	}
-	ex.inInit = false
-	ex.funcs = map[string]bool{}
-	ex.stubs = map[string]bool{}
-	ex.steps = 0
+	// package initialisers run lazily, on first access to a package's globals (see Exec.global)
 	ex.callFunction(fn, nil)
 	res.End = pathEnd{Kind: EndDone}
 	return
